@@ -56,7 +56,7 @@ def mentions_mode(P, f, e, depth=0):
 def run(ctx):
     ctx.clause = ("every decision to restrict the interface to the ksymtab is conjoined with the "
                   "load_in_linux_kernel_mode option (no kernel-mode filtering when the mode is off)")
-    ctx.rules = ["R-KMODE"]
+    ctx.rules = ["R-KMODE", "R-KSYMAPPLY"]
     P = ctx.program(UNITS)
     n_sites = n_sel = 0
     for f in sorted(P.all_funcs(), key=lambda x: (x.file, x.l0)):
@@ -99,4 +99,81 @@ def run(ctx):
                    "--no-linux-kernel-mode the symbol tables and the declarations disagree" % MODE_GETTER)
     ctx.floor("R-KMODE", "is_linux_kernel() call sites", n_sites, 5)
     ctx.floor("R-KMODE", "selecting sites", n_sel, 3)
+    check_ksymapply(ctx, P)
     ctx.assume("which symbols carry a ksymtab marker is runtime data")
+
+
+
+def check_ksymapply(ctx, P):
+    """R-KSYMAPPLY: in symtab::load_(Elf*, ...) the names collected from the __ksymtab_<name> markers are applied to
+    the symbols independently of the order of the symbol table:
+      /ALL   the loop over the collected set that calls set_is_in_ksymtab(true) lies on every path to the
+             function's `return true` (it is not skipped under a condition);
+      /ONLY  every set_is_in_ksymtab(true) is control-dependent on membership in that set (inside the loop over it,
+             or under a count()/find() test of it)."""
+    fs = [f for f in P.fn("abigail::symtab_reader::symtab::load_") if not f.dep and f.cfg() is not None and
+          any(x["k"] == "StringLiteral" and x.get("s") == "__ksymtab_" for x in f.nodes())]
+    if len(fs) != 1:
+        raise AnalysisBroken("anchor vanished: symtab::load_ (the overload that recognises __ksymtab_ markers)")
+    f = fs[0]
+    ctx.analysed(f)
+    # the collected set: a local that receives insert(...) under the "__ksymtab_" test
+    sets = set()
+    for n in f.nodes():
+        if n["k"] == "IfStmt" and any(x["k"] == "StringLiteral" and x.get("s") == "__ksymtab_" for x in walk(n["c"][0])):
+            for x in walk(n["c"][1]):
+                if x["k"] == "CXXMemberCallExpr" and (f.decl(x) or {}).get("n") in ("insert", "emplace"):
+                    o = strip_casts(member_call_object(x))
+                    if o is not None and o["k"] == "DeclRefExpr":
+                        sets.add(o.get("d"))
+    if len(sets) != 1:
+        raise AnalysisBroken("anchor vanished: the local set filled from the __ksymtab_ markers in symtab::load_")
+    S = next(iter(sets))
+    sname = f.unit.decl(S)["n"]
+    setters = [n for n in f.nodes() if n["k"] == "CXXMemberCallExpr" and (f.decl(n) or {}).get("n") == "set_is_in_ksymtab"]
+    ctx.floor("R-KSYMAPPLY", "set_is_in_ksymtab call sites in symtab::load_", len(setters), 1)
+
+    def ranges_over_S(loop):
+        r = strip_casts(loop["c"][0])
+        return r is not None and r["k"] == "DeclRefExpr" and r.get("d") == S
+    loops = [n for n in f.nodes() if n["k"] == "CXXForRangeStmt" and ranges_over_S(n) and
+             any(x["i"] == s_["i"] for s_ in setters for x in walk(n))]
+    ok_loop = len(loops) >= 1
+    ctx.ob("R-KSYMAPPLY/ALL", "symtab::load_: a loop over %s applies set_is_in_ksymtab" % sname, ok_loop, f.loc(),
+           "%d loop(s) over the collected names call set_is_in_ksymtab(true)" % len(loops))
+    if ok_loop:
+        from rules.idref_rule import _on_all_paths_before
+        loop = loops[0]
+        rng = loop["c"][0]
+        rets = [n for n in f.nodes() if n["k"] == "ReturnStmt" and n.get("c") and
+                strip_casts(n["c"][0]) is not None and strip_casts(n["c"][0])["k"] == "CXXBoolLiteralExpr" and
+                strip_casts(n["c"][0]).get("v") == 1]
+        if not rets:
+            raise AnalysisBroken("anchor vanished: `return true` of symtab::load_")
+        # the range expression of the loop is evaluated exactly when the loop is reached
+        ids = {x["i"] for x in walk(rng)}
+        ok = all(_on_all_paths_before(f, r, lambda e: e["i"] in ids) for r in rets)
+        guards = [expr_str(f, a["c"][0]) for a in f.ancestors(loop) if a["k"] == "IfStmt"]
+        ctx.ob("R-KSYMAPPLY/ALL", "symtab::load_: the application loop over %s runs on every successful load" % sname,
+               ok, f.loc(loop),
+               "every path to `return true` evaluates the loop over %s" % sname if ok else
+               "the loop that flags the exported symbols is skipped on some path to `return true` (under `%s`): markers "
+               "met after the condition became true are never applied - the result depends on the order of the "
+               "symbol table" % (" / ".join(guards) or "a condition"))
+    for i, n in enumerate(setters):
+        arg = strip_casts(call_args(n)[0]) if call_args(n) else None
+        if arg is not None and arg["k"] == "CXXBoolLiteralExpr" and arg.get("v") == 0:
+            continue
+        inside = any(a["k"] == "CXXForRangeStmt" and ranges_over_S(a) for a in f.ancestors(n))
+        guarded = False
+        for a in f.ancestors(n):
+            if a["k"] == "IfStmt":
+                for x in walk(a["c"][0]):
+                    if x["k"] == "CXXMemberCallExpr" and (f.decl(x) or {}).get("n") in ("count", "find", "contains"):
+                        o = strip_casts(member_call_object(x))
+                        if o is not None and o["k"] == "DeclRefExpr" and o.get("d") == S:
+                            guarded = True
+        ctx.ob("R-KSYMAPPLY/ONLY", "symtab::load_: set_is_in_ksymtab(true) #%d only for names in %s" % (i + 1, sname),
+               inside or guarded, f.loc(n),
+               "inside the loop over %s" % sname if inside else "under a membership test of %s" % sname if guarded else
+               "a symbol is flagged as ksymtab-exported without its name having been looked up in the collected markers")
